@@ -205,7 +205,7 @@ func srcFor(b []byte, i int) io.Reader {
 }
 
 func c08(c *wk.Ctx) {
-	c.Note("rule", "valid encodings (messages, dynamic values, typed data of random signatures, MetaObject, ObjectReference, ServiceInfo, CapabilityMap, Go values through the reflection decoder) are cut at every position k<len when len<=512, otherwise at every length/count field boundary +-1, around 4 KiB .. 128 KiB into every string or buffer longer than 4 KiB, plus 64 random positions; stream socket = messages cut at the header boundary, inside the payload and one byte before the end, sent over a unix socket pair / a TCP loopback connection whose peer then closes (read directly and through ConnStream); stream long = data whose last element is a string / buffer of 64 KiB .. 200 KiB; each strict prefix is fed to the real decoder (from a *bytes.Reader or a *bytes.Buffer), which must return an error. Evaluations count prefixes. Distinct non-trivial = distinct (entry point, signature, length) whose full encoding the decoder accepts.")
+	c.Note("rule", "valid encodings (messages, dynamic values, typed data of random signatures, MetaObject, ObjectReference, ServiceInfo, CapabilityMap, Go values through the reflection decoder) are cut at every position k<len when len<=512, otherwise at every length/count field boundary +-1, around 4 KiB .. 128 KiB into every string or buffer longer than 4 KiB, plus 64 random positions; stream socket = messages cut at the header boundary, inside the payload and one byte before the end, sent over a unix socket pair / a TCP loopback connection whose peer then closes (read directly and through ConnStream); stream long-lists = Go values holding a list of 4097 .. 20000 one- to eight-byte elements (bare, last structure member, last tuple member) through the reflection decoder, prefixes tried whether or not the decoder accepts such a long list at all; stream long = data whose last element is a string / buffer of 64 KiB .. 200 KiB; each strict prefix is fed to the real decoder (from a *bytes.Reader or a *bytes.Buffer), which must return an error. Evaluations count prefixes. Distinct non-trivial = distinct (entry point, signature, length) whose full encoding the decoder accepts.")
 	exh := 512
 	scal := append(append([]rc.Kind{}, rc.AllScalars...), rc.Dyn)
 	inner := rc.GenOpts{Depth: 2, Width: 3, ComparableKeys: true, MaxAnonNest: 3}
@@ -395,6 +395,55 @@ func c08(c *wk.Ctx) {
 		if c.WantSample() && i%20 == 0 {
 			c.Sample(map[string]interface{}{"stream": "long", "signature": t.Sig(), "long_len": n, "cuts": len(ks)})
 		}
+	})
+
+	// long-lists: lists of more than 4096 small elements (the reflection decoder's own limit for allocating
+	// a list; it may refuse such a list altogether - its strict prefixes must be refused in any case, which
+	// is why these prefixes are tried whether or not the complete encoding is accepted)
+	c.Cases("long-lists", c.Pick(60, 1500), func(i int, rng *rand.Rand) {
+		n := []int{4097, 4100, 5000, 6000, 8191, 8192, 20000}[rng.Intn(7)]
+		ek := []rc.Kind{rc.Uint8, rc.Int8, rc.Bool, rc.Uint16, rc.Int32, rc.Double}[rng.Intn(6)]
+		l := make([]interface{}, n)
+		for k := range l {
+			l[k] = rc.GenValue(rng, rc.T(ek), rc.ValOpts{})
+		}
+		var t *rc.Type
+		var v interface{}
+		switch i % 3 {
+		case 0:
+			t, v = rc.ListOf(rc.T(ek)), l
+		case 1:
+			t, v = rc.StructOf("Tail", []string{"n", "items"}, rc.T(rc.Uint16), rc.ListOf(rc.T(ek))), rc.Tup{uint16(7), l}
+		default:
+			t, v = rc.TupleOf(rc.T(rc.String), rc.ListOf(rc.T(ek))), rc.Tup{"head", l}
+		}
+		enc, fields := rc.EncodeFields(t, v)
+		detail := map[string]interface{}{"signature": t.Sig(), "class": "long-list/" + t.Sig(), "elements": n}
+		gt := goType(t)
+		dec := func(b []byte) error {
+			return encoding.NewDecoder(encoding.DefaultCap(), srcFor(b, i/3)).Decode(reflect.New(gt).Interface())
+		}
+		var ferr error
+		if wk.Try2(func() { ferr = dec(enc) }) {
+			c.Viol("long-lists", i, "full=panic/encoding.Decoder.Decode", "the reflection decoder panicked on a valid encoding", detail)
+			return
+		}
+		if ferr == nil {
+			c.Count("long_lists_accepted_complete", 1)
+		} else {
+			c.Count("long_lists_refused_complete", 1)
+		}
+		for _, k := range cuts(rng, len(enc), fields, 0) {
+			var err error
+			panicked := wk.Try2(func() { err = dec(enc[:k]) })
+			c.Eval(1)
+			if panicked || err == nil {
+				detail["cut"] = k
+				c.Viol("long-lists", i, "accepted/encoding.Decoder.Decode/long-list", fmt.Sprintf("the reflection decoder accepted (or panicked on) a %d-byte prefix of a %d-byte encoding of %d elements", k, len(enc), n), detail)
+				return
+			}
+		}
+		c.Nontrivial(wk.Hash64("long-lists", t.Sig(), n))
 	})
 
 	c.Cases("structs", c.Pick(600, 20000), func(i int, rng *rand.Rand) {
